@@ -1,12 +1,13 @@
 #!/bin/bash
-# Touches build/repo.stamp whenever the content of the repository sources the engines are compiled from has changed.
+# Touches <build>/repo.stamp whenever the content of the repository sources the engines are compiled from has changed.
 set -e
 cd "$(dirname "$0")/.."
 REPO="${VERIF_REPO:-/repo}"
-mkdir -p build
+B="${VERIF_BUILD:-build}"
+mkdir -p "$B"
 h=$(cd "$REPO" && cat include/pgm/*.hpp c-interface/cpgm.cpp c-interface/cpgm.h | sha256sum | cut -d' ' -f1)
 h="$h $REPO"
-if [ ! -f build/repo.hash ] || [ "$(cat build/repo.hash)" != "$h" ] || [ ! -f build/repo.stamp ]; then
-  echo "$h" > build/repo.hash
-  touch build/repo.stamp
+if [ ! -f "$B/repo.hash" ] || [ "$(cat "$B/repo.hash")" != "$h" ] || [ ! -f "$B/repo.stamp" ]; then
+  echo "$h" > "$B/repo.hash"
+  touch "$B/repo.stamp"
 fi
